@@ -30,7 +30,7 @@ ASSUMPTIONS = [
     "ACL patterns never split the rows of one rulebook (rule,key): they are the rulebook's patterns, widened (*, truncation + ~) or narrowed to one key",
     "rulebook logics emit only the row or its negation (default, undo_redo, ordered)",
 ]
-FLOORS = {"quick": {"patches_checked": 2000, "commands_checked": 3000, "uncovered_rows_checked": 3000, "cant_delete_rows_checked": 150, "composition_checked": 2000, "front_runs_with_acl": 300, "front_runs_empty_acl": 10, "front_runs_acl_safe": 150, "flat_vendor_cases": 400, "flat_cases_with_negated_rows_in_new": 80, "cases_with_literal_acl_rules_holding_a_slash_or_a_hash": 400, "second_devices_with_shared_acl": 800, "shared_subrule_acl_cases": 300, "front_runs_filter_acl": 150, "deploy_front_runs": 500, "cases_with_negated_rows_in_new": 400, "front_runs_with_generator_selection": 150, "cases_with_tab_indented_rule_texts": 150},
+FLOORS = {"quick": {"patches_checked": 2000, "commands_checked": 3000, "uncovered_rows_checked": 3000, "cant_delete_rows_checked": 150, "composition_checked": 2000, "front_runs_with_acl": 300, "front_runs_empty_acl": 10, "front_runs_acl_safe": 150, "flat_vendor_cases": 400, "flat_cases_with_negated_rows_in_new": 80, "cases_with_literal_acl_rules_holding_a_slash_or_a_hash": 400, "second_devices_with_shared_acl": 800, "shared_subrule_acl_cases": 300, "front_runs_filter_acl": 150, "deploy_front_runs": 500, "cases_with_negated_rows_in_new": 400, "front_runs_with_generator_selection": 150, "cases_with_tab_indented_rule_texts": 150, "front_runs_on_a_second_device_of_the_model": 100},
           "thorough": {"patches_checked": 60000, "commands_checked": 90000, "uncovered_rows_checked": 90000, "cant_delete_rows_checked": 4000, "composition_checked": 60000}}
 VENDORS = c01.BLOCK_VENDORS
 
@@ -514,8 +514,75 @@ def check_front(seed, acc, safe=False, filt=False, sel=False):
     return w
 
 
+def check_two_devices(seed, acc):
+    """the same generator objects serve two devices of ONE hardware model, and what a generator owns depends on the device (its uplinks, its role):
+    each device's patch is confined to the ACLs the generators declared for THAT device"""
+    from annet.api import _diff_and_patch
+    from annet.generators import GeneratorError
+    from vf import harness_gen as H
+    rng = random.Random(seed)
+    vname = rng.choice([x for x in VENDORS if x != "pc"])
+    v, prefix, exitw, hw, fmt = c01.vendor_env(vname)
+    U = G.gen_rulebook(rng, depth=3, prefix=prefix, allow=("catchall", "ordered", "global"))
+    rtext = RB.render(U)
+    hosts = ["sw1", "sw2"]
+    olds = {h: G.gen_tree(rng, U, foreign=0.5, fill=0.75) for h in hosts}
+    muts = {h: G.mutate_tree(rng, olds[h], U, rate=0.5) for h in hosts}
+    gens, refs = [], {h: [] for h in hosts}
+    for i in range(rng.randint(1, 3)):
+        a1 = GA.gen_acl(rng, U, p_include=0.7)
+        a2 = [r for r in a1 if rng.random() < 0.5]      # on the second device the generator owns a part of it only
+        per = {}
+        for h, a in zip(hosts if rng.random() < 0.7 else hosts[::-1], (a1, a2)):
+            l, g = A.compile_level(a, ideal=False)
+            per[h] = (A.render(a), A.filter_tree(plain(muts[h]), l, g, prefix, "winner"))
+            if per[h][0].strip():
+                refs[h] += GA.tag_generator(a, "Gen%d" % i)
+        gobj = H.make_partial("Gen%d" % i, vname, "", H.tree_runner([]))
+        cls = type(gobj)
+        setattr(cls, "acl_" + vname, lambda self, device, _per=per: _per[device.hostname][0])
+        setattr(cls, "run_" + vname, lambda self, device, _per=per: H.tree_runner(_per[device.hostname][1])(self, device))
+        gens.append(gobj)
+    try:
+        rb = c01.compile_rb(rtext, vname)
+    except Exception as e:
+        acc.violation("C02/compile-exception/%s" % type(e).__name__, "generated rulebook rejected", {"two_devices": True, "seed": seed, "error": repr(e)[:300]})
+        return
+    order = hosts if seed % 2 else hosts[::-1]
+    acc.count("runs_of_one_generator_set_over_two_devices_of_one_model")
+    for h in order:
+        device = H.FakeDevice(hw, hostname=h)
+        w = {"two_devices": True, "seed": seed, "vendor": vname, "rulebook": rtext, "device": h, "device_order": order, "old": plain(olds[h]), "acl": A.render(refs[h]),
+             "acl_on_the_other_device": A.render(refs[[x for x in hosts if x != h][0]])}
+        try:
+            res = H.old_new(device, gens, fmt.join(olds[h]), no_acl_exclusive=True)
+        except GeneratorError:
+            acc.count("front_skipped_generator_error")
+            continue
+        except Exception as e:
+            acc.violation("C02/front-exception/%s" % type(e).__name__, "_old_new_per_device raised", dict(w, error=repr(e)[:300]))
+            return
+        if res.err is not None:
+            acc.violation("C02/front-error/%s" % type(res.err).__name__, "_old_new_per_device returned an error", dict(w, error=repr(res.err)[:300]))
+            return
+        try:
+            diff, patch = _diff_and_patch(device, res.get_old(False), res.get_new(False), res.get_acl_rules(False), res.filter_acl_rules, False, rb=rb)
+            paths = [tuple(p) for p in fmt.cmd_paths(patch)]
+        except Exception as e:
+            acc.violation("C02/front-exception/%s" % type(e).__name__, "_diff_and_patch raised on the front end's result", dict(w, error=repr(e)[:300]))
+            return
+        w["commands"] = [list(p) for p in paths]
+        acc.count("front_runs")
+        acc.count("front_runs_on_a_second_device_of_the_model" if h == order[1] else "front_runs_with_acl")
+        al, ag = A.compile_level(refs[h], ideal=True)
+        unc = judge_patch(acc, w, vname, U, olds[h], paths, al, ag, tag="")
+        acc.case(["two-devices", vname, rtext, w["acl"], w["old"], w["commands"]], nontrivial=bool(unc and paths))
+
+
 def run_shard(spec, acc):
     if spec["mode"] == "replay":
+        if spec["witness"].get("two_devices"):
+            return check_two_devices(spec["witness"]["seed"], acc)
         if spec["witness"].get("front"):
             check_front(spec["witness"]["seed"], acc, safe=bool(spec["witness"].get("safe")), filt=bool(spec["witness"].get("filt")), sel=bool(spec["witness"].get("sel")))
         else:
@@ -525,6 +592,7 @@ def run_shard(spec, acc):
     tier, k, n = spec["tier"], spec["shard"], spec["nshards"]
     total = 2400 if tier == "quick" else 70000
     rng = random.Random("C02/%s/%s" % (spec["seed"], k))
+    tdrng = random.Random("C02/two-devices/%s/%s" % (spec["seed"], k))
     for j in range(total // n):
         w = check_case(rng.randrange(1 << 48), acc)
         if j < 2 and w:
@@ -537,6 +605,8 @@ def run_shard(spec, acc):
             check_front(rng.randrange(1 << 48), acc, filt=True)
         if j % 6 == 5:
             check_front(rng.randrange(1 << 48), acc, sel=True)
+        if j % 6 == 2:
+            check_two_devices(tdrng.randrange(1 << 48), acc)
         if j % 4 == 2:
             check_case(rng.randrange(1 << 48), acc, flat=True)
         if j % 4 == 0:
